@@ -33,6 +33,7 @@ type Scenario struct {
 	EPs      []scen.EPSpec `json:"eps"`
 	Clients  int           `json:"clients"`
 	Gated    bool          `json:"gated,omitempty"` // backends hold every request until all clients are held
+	IdleMin   int          `json:"idle_min,omitempty"`   // gated only: before the held attempts, every endpoint serves warm-up requests and then IdleMin minutes pass without traffic (simulated: the collector's time stamps move into the past)
 	UptimeMin int          `json:"uptime_min,omitempty"` // gated only: while the attempts are held, the collector's periodic clean-up pass runs as it would after this many minutes of uptime
 	Abort    bool          `json:"abort,omitempty"` // the client closes its socket after the first body byte
 }
@@ -66,6 +67,7 @@ type Mid struct {
 type Obs struct {
 	Reqs     []ReqObs          `json:"reqs"`
 	Mid      *Mid              `json:"mid,omitempty"`
+	Warm     map[string]int    `json:"warm,omitempty"` // requests each backend served in the warm-up phase (IdleMin)
 	Final    Counters          `json:"final"`
 	Statuses map[string]string `json:"statuses"`
 	StartErr string            `json:"start_err,omitempty"`
@@ -153,6 +155,11 @@ func read(s *stack.Stack, sc *Scenario, backends []*stack.Backend, b0 *baseline)
 		c.Engine = sub(c.Engine, b0.e)
 		c.Translator = sub(c.Translator, b0.tr)
 		for k, v := range c.PerEP {
+			if b := b0.pe[k]; v[0] < b[0] || v[1] < b[1] || v[2] < b[2] {
+				// the collector dropped this endpoint's (idle) entry since the baseline and started a new one:
+				// its counters restarted from zero, there is nothing to subtract
+				continue
+			}
 			c.PerEP[k] = sub(v, b0.pe[k])
 		}
 		for k, v := range c.Models {
@@ -259,6 +266,42 @@ func Run(sc *Scenario) *Obs {
 			st = domain.EndpointStatus(e.Status)
 		}
 		s.SetStatus(e.Name, st)
+	}
+	if sc.Gated && sc.IdleMin > 0 {
+		// warm-up: every backend answers at once; then the silence
+		obs.Warm = map[string]int{}
+		for i, e := range sc.EPs {
+			if e.Beh.Kind == "ok" {
+				bh := e.Beh
+				if bh.Body == nil && bh.BodyHex != "" {
+					bh.Body, _ = hex.DecodeString(bh.BodyHex)
+				}
+				backends[i].SetBehaviour(bh)
+			}
+		}
+		for i := 0; i < 4*len(sc.EPs); i++ {
+			stack.Do(s.Addr, reqBytes(sc, s.Addr, 1000+i), 4*time.Second)
+		}
+		stack.Quiesce(func() string { return fmt.Sprint(s.Stats.GetConnectionStats(), s.Stats.GetProxyStats()) })
+		for i, b := range backends {
+			obs.Warm[sc.EPs[i].Name] = len(b.Taken())
+		}
+		stats.VerifAge(s.Stats, time.Duration(sc.IdleMin)*time.Minute)
+		for i, e := range sc.EPs { // back to the scenario's (gated) behaviours and statuses
+			bh := e.Beh
+			if bh.Body == nil && bh.BodyHex != "" {
+				bh.Body, _ = hex.DecodeString(bh.BodyHex)
+			}
+			bh.Gate = gate
+			if bh.Kind != "refuse" {
+				backends[i].SetBehaviour(bh)
+			}
+			st := domain.StatusHealthy
+			if e.Status != "" {
+				st = domain.EndpointStatus(e.Status)
+			}
+			s.SetStatus(e.Name, st)
+		}
 	}
 	// connections the health checker keeps alive are not traffic
 	var idle int64
